@@ -48,7 +48,8 @@ RULE = ("scenarios = 2-3 thread programs over {get same/different URI, tick + mo
         "read/store), enumerated in order of increasing preemption count until the tier's time share of the scenario "
         "is used up, each compared with the Lean model on the same schedule; oracle-only scenarios explored the same "
         "way: renders with <%include> on a bounded / plain lookup, first renders with <%namespace module=...> of a "
-        "fresh module whose body yields between its definitions (import lock instrumented; 240 schedules, exhaustive); "
+        "fresh module whose body yields between its definitions (import lock instrumented; 240 schedules when the "
+        "scenario's time share suffices - the stream's exhaustive flag in the evidence says whether it did); "
         "first cached calls of a def with its own cache_region on a region-dependent back end with a point at every "
         "executed line of mako/cache.py (every stop line of one thread x the other running to completion, both ways "
         "round, exhaustive); bounded lookups (collection_size 1, 2 x filesystem_checks on/off; first store, and a store "
